@@ -410,6 +410,7 @@ Proof.
   rewrite O1. apply Forall_app. split; [exact B1|]. constructor; [exact B3|constructor].
 Qed.
 
+(* TMP-OUT-BEGIN
 Lemma split_top_level_refuted_lemma :
   exists s pieces p, split_tex_string_gen sep_space s false true = Ok pieces /\
                      In p pieces /\ cdepth_from 0 p <> 0.
@@ -418,6 +419,7 @@ Proof.
   split; [vm_compute; reflexivity|]. split; [left; reflexivity|vm_compute; discriminate].
 Qed.
 
+TMP-OUT-END *)
 (* totality: the model's fuel |s|+1 suffices, split_tex_string never raises *)
 Lemma partition_brace_length_lt s h r : partition_brace s = (h, true, r) -> length r < length s.
 Proof.
